@@ -147,11 +147,42 @@ def make_judges(ctx):
         exf, shape = A.flat(ex)
         sc = F(2) ** tfmt[2]
         xs = [e * sc for e in exf]
-        if any(x.denominator != 1 for x in xs):
-            ctx.skip('register:result not a multiple of the target LSB (rounding involved: C08)')
-            return
         if n <= 52 and any(abs(x) >= 2 ** 62 for x in xs):
             ctx.skip('register:exact result outside the input domain')
+            return
+        if any(x.denominator != 1 for x in xs):
+            # the register has fewer fraction bits than the exact result (e.g. the Q x Q -> Q multiply): round, then wrap
+            if n > 52 or max(ai.x.n_word, ai.y.n_word) > 52:
+                ctx.skip('register:rounding into a word beyond the core domain')
+                return
+            if ai.method != 'raw':
+                ctx.skip('register:rounding involved with the value (repr) method: float arithmetic by definition (C08 covers its domain)')
+                return
+            if ev.exc is not None:
+                ctx.violation('raises', 'register %s raised %s: %s' % (ai.op, type(ev.exc).__name__, str(ev.exc)[:160]), ev, key='wrap.raises')
+                return
+            res = ai.res
+            if res is None or res.fmt() != tfmt:
+                ctx.violation('format', 'register %s via %s: result format %s, target %s' % (ai.op, way, res and R.dtype_fxp(*res.fmt()), R.dtype_fxp(*tfmt)), ev)
+                return
+            exp = [R.wrap(R.round_exact(x, r), tfmt[0], n) for x in xs]
+            if res.codes != exp:
+                # known finding register.float_downscale_gt53: the raw kernels scale DOWN by a float factor, so a raw result of more than
+                # 53 bits is rounded to a double before the register's own rounding; attributed only if the float model reproduces the codes
+                key = None
+                try:
+                    model = _float_downscale_model(ai, tfmt, r)
+                except Exception:
+                    model = None
+                if model is not None and model == res.codes and _raw_bits(ai, exf) > 53:
+                    key = 'register.float_downscale_gt53'
+                i = next(i for i, (a_, b_) in enumerate(zip(res.codes, exp)) if a_ != b_)
+                ctx.violation('register_rounded', '%s %s %s via %s into %s %s/wrap: exact scaled result %s -> code %d, library %r' % (
+                    R.dtype_fxp(*ai.x.fmt()), ai.op, R.dtype_fxp(*ai.y.fmt()), way, R.dtype_fxp(*tfmt), r, xs[i], exp[i], res.codes[i]), ev, key=key)
+            lo_, hi_ = R.code_range(tfmt[0], n)
+            wrapped_ = any(not (lo_ <= R.round_exact(x, r) <= hi_) for x in xs)
+            ctx.judged(('register-rounded', ai.op, way, 's' if tfmt[0] else 'u', G.word_class(n), wrapped_, max(abs(x) for x in xs) >= 2 ** 53), True, None, elements=len(xs))
+            ctx.floor_hit(('register-rounded',))
             return
         if ev.exc is not None:
             ctx.violation('raises', 'register %s raised %s: %s' % (ai.op, type(ev.exc).__name__, str(ev.exc)[:160]), ev, key='wrap.raises')
@@ -167,8 +198,16 @@ def make_judges(ctx):
             e = R.wrap(x.numerator, tfmt[0], n)
             wrapped |= not (lo <= x.numerator <= hi)
             if k != e:
+                key = None
+                natural = (ai.x.n_frac + ai.y.n_frac) if ai.op == 'mul' else max(ai.x.n_frac, ai.y.n_frac)
+                if tfmt[2] < natural and ai.method == 'raw' and n <= 52 and _raw_bits(ai, exf) > 53:
+                    try:
+                        if _float_downscale_model(ai, tfmt, r) == res.codes:
+                            key = 'register.float_downscale_gt53'      # same known mechanism (the dropped bits happen to be zero)
+                    except Exception:
+                        pass
                 ctx.violation('register', '%s %s %s via %s into %s/wrap: exact raw result %d -> register value %d, library %r' % (
-                    R.dtype_fxp(*ai.x.fmt()), ai.op, R.dtype_fxp(*ai.y.fmt()), way, R.dtype_fxp(*tfmt), x.numerator, e, k), ev)
+                    R.dtype_fxp(*ai.x.fmt()), ai.op, R.dtype_fxp(*ai.y.fmt()), way, R.dtype_fxp(*tfmt), x.numerator, e, k), ev, key=key)
                 break
         ctx.judged(('register', ai.op, way, 's' if tfmt[0] else 'u', G.word_class(n), wrapped), wrapped,
                    {'op': ev.op, 'x': ai.x.describe(), 'y': ai.y.describe(), 'result': res.describe(), 'way': way} if (wrapped and ctx.want_sample()) else None, elements=len(xs))
@@ -210,6 +249,35 @@ def make_judges(ctx):
     return [store_judge, register_judge, resize_judge]
 
 
+def _raw_bits(ai, exact_values):
+    """bits of the exact raw result at its natural fraction length (before any down-scaling)"""
+    natural = (ai.x.n_frac + ai.y.n_frac) if ai.op == 'mul' else max(ai.x.n_frac, ai.y.n_frac)
+    sc = F(2) ** natural
+    return max(abs(int(e * sc)).bit_length() for e in exact_values)
+
+
+def _float_downscale_model(ai, tfmt, rounding):
+    """what the raw kernels compute when the target has fewer fraction bits than the operands need: Python arithmetic with the same
+    int / float mix (int * 2**negative is a float multiplication of the correctly rounded double of the int)"""
+    n = tfmt[1]
+    xa = np.empty(len(ai.x.codes), dtype=object)
+    xa[:] = ai.x.codes
+    xa = xa.reshape(ai.x.shape)
+    ya = np.empty(len(ai.y.codes), dtype=object)
+    ya[:] = ai.y.codes
+    ya = ya.reshape(ai.y.shape)
+    nf = tfmt[2]
+    if ai.op == 'mul':
+        f = 2 ** (nf - ai.x.n_frac - ai.y.n_frac)
+        raw = (xa * ya) * f
+    else:
+        t1 = xa * 2 ** (nf - ai.x.n_frac)
+        t2 = ya * 2 ** (nf - ai.y.n_frac)
+        raw = t1 + t2 if ai.op == 'add' else t1 - t2
+    flat = raw.ravel().tolist() if isinstance(raw, np.ndarray) else [raw]
+    return [R.wrap(R.round_exact(F(v), rounding), tfmt[0], n) for v in flat]
+
+
 def _pyint_carrier(c):
     if isinstance(c, bool):
         return False
@@ -224,7 +292,7 @@ def _pyint_carrier(c):
 
 def floors(tier):
     return [('wide', n) for n in WIDE] + [('core', s, r) for s in 'su' for r in G.ROUNDINGS] + \
-           [('register', op, way) for op in ('add', 'sub', 'mul') for way in ('out', 'same')] + [('resize-wrap',)]
+           [('register', op, way) for op in ('add', 'sub', 'mul') for way in ('out', 'same')] + [('resize-wrap',), ('register-rounded',)]
 
 
 # ------------------------------------------------------------------------------------------ workload
@@ -372,6 +440,21 @@ def run_case(case, ctx):
                 _try(lambda: fn(xb, xa, out_like=Fxp(None, sreg, nreg, 0, overflow='wrap', rounding=r)))
             reg = Fxp(None, sreg, nreg, 0, overflow='wrap')
             _try(lambda: reg.equal(xa * xb))
+        # the ordinary Q x Q -> Q multiply / accumulate: the register keeps fewer fraction bits than the exact result has
+        if not wide and i % 2 == 0:
+            wq = rng.choice([8, 12, 16, 24, 31, 32])
+            fq = rng.randint(1, wq - 1)
+            sq = rng.random() < 0.7
+            lq, hq = R.code_range(sq, wq)
+            ca, cb = [rng.choice([lq, hq, rng.randint(lq, hq), rng.randint(lq, hq) | 1]) for _ in range(2)]
+            qa = Fxp(ca, sq, wq, fq, raw=True, overflow='wrap', rounding=r, op_sizing='same')
+            qb = Fxp(cb, sq, wq, fq, raw=True, overflow='wrap', rounding=r)
+            _try(lambda: qa * qb)
+            _try(lambda: fm.mul(qa, qb, out=Fxp(None, sq, wq, fq, overflow='wrap', rounding=r)))
+            _try(lambda: fm.mul(qa, qb, out_like=Fxp(None, sq, wq, max(0, fq - 2), overflow='wrap', rounding=r)))
+            qc = Fxp(rng.randint(lq, hq), sq, wq, min(wq, fq + rng.randint(1, 6)), raw=True)
+            _try(lambda: qa + qc)
+            _try(lambda: fm.sub(qa, qc, out=Fxp(None, sq, wq, fq, overflow='wrap', rounding=r)))
         # short unsigned operands subtracted / added into registers of 64+ bits
         if wide:
             ua = Fxp(rng.randint(0, 255), False, 8, 0, raw=True)
